@@ -120,3 +120,52 @@ fn k_c02_process_unsigned() {
     }
     kani::cover!(a > 0xffff_ffff);
 }
+
+use crate::creator::{Array, ArrayS, ValueStore};
+use crate::creator::directory_pack::value_store::ValueHandle;
+// ---- the array arm of the real Property::process: the width of the array-length column holds the length of every array it was
+// ---- shown, whichever of the four array value shapes (inline prefix 0, 1, 2 or more bytes) carries it
+// a value handle that names no store (Cell<Option<Arc<..>>> = None, index 0: the all-zero bit pattern).  Property::process never looks at
+// the handle of an array value; StoreHandle::add_value, the only public way to get one, statically reaches rayon's parallel iterators,
+// which kani-compiler 0.68 cannot translate (internal compiler error)
+fn no_handle() -> ValueHandle {
+    unsafe { core::mem::zeroed() }
+}
+fn len_width(p: Property<&'static str>) -> usize {
+    let n = match p {
+        Property::Array { max_array_size, fixed_array_len: _, store_handle, name: _ } => {
+            core::mem::forget(store_handle);
+            ByteSize::from(max_array_size) as usize
+        }
+        _ => 0,
+    };
+    n
+}
+macro_rules! k_process_array {
+    ($name:ident, $prefix:expr, |$store:ident, $size:ident| $mk:expr) => {
+        // oblig: C02.a.process_array kind=complete timeout=900 tier=quick
+        #[kani::proof]
+        #[kani::unwind(10)]
+        fn $name() {
+            let $store = ValueStore::new_plain(Some(0));
+            let (sa, sb): (usize, usize) = kani::any();
+            kani::assume(sa <= 0x00FF_FFFF && sb <= 0x00FF_FFFF);
+            let mut p = Property::<&'static str>::new_array($prefix, $store.clone(), "x");
+            let va = { let $size = sa; OneValue($mk) };
+            let vb = { let $size = sb; OneValue($mk) };
+            p.process::<&'static str>(&va);
+            p.process::<&'static str>(&vb);
+            core::mem::forget(va);
+            core::mem::forget(vb);
+            let n = len_width(p);
+            assert!(n >= 1 && fits_u(sa as u64, n) && fits_u(sb as u64, n));
+            assert!(n == 1 || !fits_u(sa as u64, n - 1) || !fits_u(sb as u64, n - 1));
+            kani::cover!(n == 3);
+            core::mem::forget($store);
+        }
+    };
+}
+k_process_array!(k_c02_process_array0, 0, |store, size| Value::Array0(Box::new(ArrayS::<0> { data: [], value_id: no_handle(), size })));
+k_process_array!(k_c02_process_array1, 1, |store, size| Value::Array1(Box::new(ArrayS::<1> { data: [7], value_id: no_handle(), size })));
+k_process_array!(k_c02_process_array2, 2, |store, size| Value::Array2(Box::new(ArrayS::<2> { data: [7, 9], value_id: no_handle(), size })));
+k_process_array!(k_c02_process_arrayn, 3, |store, size| Value::Array(Box::new(Array { data: vec![7u8, 9, 11].into_boxed_slice(), value_id: no_handle(), size })));
